@@ -40,7 +40,7 @@ type tierCfg struct {
 var tiers = map[string]map[string]tierCfg{
 	"C13": {"quick": {200000, 25, 20, 6, 1500}, "thorough": {20000000, 900, 30, 240, 4000}},
 	"C12": {"quick": {150000, 25, 20, 0, 1500}, "thorough": {4000000, 900, 30, 0, 4000}},
-	"C02": {"quick": {60000, 30, 20, 0, 600}, "thorough": {15000000, 1200, 30, 0, 1500}},
+	"C02": {"quick": {60000, 30, 20, 6, 600}, "thorough": {15000000, 1200, 30, 180, 1500}},
 	"C16": {"quick": {24000, 30, 20, 8, 600}, "thorough": {3000000, 1200, 30, 300, 1500}},
 	"C14": {"quick": {20000, 25, 20, 6, 600}, "thorough": {1000000, 900, 30, 240, 1500}},
 	"C09": {"quick": {200000, 25, 20, 0, 1000}, "thorough": {20000000, 900, 30, 0, 3000}},
@@ -63,7 +63,7 @@ var expectedProbes = map[string][]string{
 		"fault_with_script_goroutines", "ctx_mode_0", "ctx_mode_1", "ctx_mode_2", "spawn", "select"},
 }
 
-var raceProps = map[string]bool{"C13": true, "C14": true, "C16": true}
+var raceProps = map[string]bool{"C13": true, "C14": true, "C16": true, "C02": true}
 
 type aggT struct {
 	Evals     int64            `json:"evals"`
